@@ -9,6 +9,7 @@ import (
 	"os"
 	"path/filepath"
 	"regexp"
+	"strconv"
 	"strings"
 )
 
@@ -680,6 +681,11 @@ func (e *Eng) ghostBlock(stmts []ast.Stmt, c *ctx, h *Hook, at *ast.CallExpr) {
 				}
 			}
 			src := types.ExprString(args[0])
+			if w, ok := args[0].(*ast.CallExpr); ok {
+				if id, ok := w.Fun.(*ast.Ident); ok && id.Name == "__spec" && len(w.Args) == 1 {
+					src, _ = strconv.Unquote(w.Args[0].(*ast.BasicLit).Value)
+				}
+			}
 			sx, err := parseSpec(src)
 			if err != nil {
 				panic(err)
